@@ -111,6 +111,32 @@ func checkC13(ctx *core.Ctx, rep *core.Report) {
 				rep.Violate("C13|name_not_selected|"+n, fmt.Sprintf("selecting by the listed name %q does not select/deselect it", n), op("filter_name", n))
 			}
 		}
+		// a listed name is accepted however it is written into the list: twice, twice with stray blanks, next to another
+		// listed name in either order, in both lists at once (a multiset of known names is a set of known names)
+		other := names[(int(idx)*7)%len(names)]
+		if other == n {
+			other = names[(int(idx)*7+1)%len(names)]
+		}
+		for _, o := range []lint.FilterOptions{
+			{IncludeNames: []string{n, n}}, {IncludeNames: []string{n, " " + n + "\t"}}, {ExcludeNames: []string{n, n}},
+			{IncludeNames: []string{n, other}}, {IncludeNames: []string{other, n}}, {IncludeNames: []string{other, n, other}},
+			{IncludeNames: []string{n}, ExcludeNames: []string{other}}, {IncludeNames: []string{n, other}, ExcludeNames: []string{other, other}},
+		} {
+			r, err := g.Filter(o)
+			rep.Inc("transitions")
+			rep.Inc("validated")
+			if err != nil {
+				rep.Violate("C13|name_rejected_in_list|"+n, fmt.Sprintf("listed lint name %q is rejected by Filter when the lists are %s: %v", n, descOpts(o), err), op("filter_name_list", n))
+				continue
+			}
+			has := false
+			for _, x := range r.Names() {
+				has = has || x == n
+			}
+			if has != (len(o.IncludeNames) > 0) {
+				rep.Violate("C13|name_not_selected|"+n, fmt.Sprintf("selecting by the listed name %q (%s) does not select/deselect it", n, descOpts(o)), op("filter_name_list", n))
+			}
+		}
 		for _, v := range oneCharVariants(n) {
 			if nameSet[strings.TrimSpace(v)] {
 				continue
@@ -205,6 +231,15 @@ func checkC13(ctx *core.Ctx, rep *core.Report) {
 		o.AddProfile(p)
 		if _, err := g.Filter(o); err != nil {
 			rep.Violate("C13|profile_unusable|"+p.Name, fmt.Sprintf("profile %q cannot be used to filter: %v", p.Name, err), op("profile", p.Name))
+		}
+		// … also next to include names the profile already contains, and added twice
+		if len(p.LintNames) > 0 {
+			o2 := lint.FilterOptions{IncludeNames: []string{p.LintNames[0]}}
+			o2.AddProfile(p)
+			o2.AddProfile(p)
+			if _, err := g.Filter(o2); err != nil {
+				rep.Violate("C13|profile_unusable|"+p.Name, fmt.Sprintf("profile %q cannot be combined with an include name it contains: %v", p.Name, err), op("profile", p.Name))
+			}
 		}
 		if q, ok := lint.GetProfile(p.Name); !ok || q.Name != p.Name {
 			rep.Violate("C13|profile_lookup|"+p.Name, "listed profile is not found by name", op("profile", p.Name))
